@@ -55,12 +55,15 @@ impl<'a> Para<'a> {
     /// Does `body` equal the rendering of words i..j (penalty text optional)?
     pub fn matches(&self, i: usize, j: usize, body: &str) -> bool {
         let (s, pen) = self.render(i, j);
-        if body == s {
+        // a line may or may not keep trailing spaces of its last piece (a forced cut inside a word that
+        // contains a space), and may or may not render the penalty text: neither is C03's / C07's business
+        let eq = |a: &str, b: &str| a == b || a.trim_end_matches(' ') == b.trim_end_matches(' ');
+        if eq(body, s) {
             return true;
         }
         if !pen.is_empty() {
             if let Some(rest) = body.strip_suffix(pen) {
-                return rest == s;
+                return eq(rest, s);
             }
         }
         false
